@@ -7,7 +7,7 @@
 //! resulting message sequence - a function of the pinned zone version - is
 //! observed.
 
-use super::xfr::{build_primary, content_records, reference, serial_of, soa_spec, walk_str, Primary, RefVerdict, Wire};
+use super::xfr::{content_records, reference, serial_of, soa_spec, walk_str, Primary, RefVerdict, Wire};
 use super::zonestore::{build_direct, content_as_walk, stored_name, walk_zone, Content, APEX};
 use crate::core::runner::{Scenario, Tier};
 use crate::core::sim;
@@ -170,7 +170,16 @@ impl Scenario for XfrServerScn {
 }
 
 async fn run(_tier: Tier) {
-    let Primary { zone, contents, steps, .. } = match build_primary().await {
+    // One run in twelve: more RRsets than the zone walk's channel holds (100)
+    // - the walk, on its blocking thread, then has to wait for the responder
+    // task to take items out - and all of them in one response message.
+    let hosts = if sim::chance("cfg.more_rrsets_than_the_walk_channel_holds", 1, 12) {
+        sim::stat("probe.zone_with_more_rrsets_than_the_walk_channel_holds");
+        95 + sim::draw("cfg.hosts", 16) as usize
+    } else {
+        0
+    };
+    let Primary { zone, contents, steps, .. } = match super::xfr::build_primary_with2(0, hosts).await {
         Some(p) => p,
         None => return,
     };
